@@ -121,7 +121,14 @@ def build():
                 "serves_properties": CLAIMED,
                 "kind_free_text": "hand-written explicit-state explorer for Python objects (BFS, canonical state hashing, "
                 "choice seam for random draws, crash-point enumerator, C reference programs)",
-            }
+            },
+            {
+                "name": "cref",
+                "path": "cref/cref.c",
+                "serves_properties": ["C06"],
+                "kind_free_text": "independent C reader/writer of the export formats, written from the documented layouts, "
+                "built with ASan+UBSan, used as a co-process by the C06 oracles",
+            },
         ],
         "checks": checks,
         "notes": "see DESIGN.md; known findings protocol in known_findings.json",
